@@ -1025,6 +1025,28 @@ theorem partial_circuit_params_depend_on_history :
       [⟨none, none, none, none, none, some [(0, 3)]⟩]).map (·.1.map (·.params)) = .ok [[3, 0]] := by
   decide
 
+
+/-- **a one-slot cache whose key is the whole question is invisible**: whatever questions were asked before, every
+answer is the function's value (`Source._prob_table` keyed by photon number and photon filter); with the
+counter-example of a slot keyed by the photon number alone, which answers a question about filter 2 with the table of
+filter 0. -/
+theorem slot_cache_transparent {K V : Type} [DecidableEq K] (f : K → V) (qs : List K) :
+    (SM.run (slotStep f) none qs).2 = qs.map f ∧
+    (SM.run (slotStepBy (fun q : Nat × Nat => q.1) (fun q => q.1 * 10 + q.2)) none [(3, 0), (3, 2)]).2 ≠
+      [(3, 0), (3, 2)].map (fun q => q.1 * 10 + q.2) := by
+  constructor
+  · have key : ∀ (qs : List K) (slot : Option (K × V)), SlotOk f slot → (SM.run (slotStep f) slot qs).2 = qs.map f := by
+      intro qs
+      induction qs with
+      | nil => intro slot _; rfl
+      | cons q rest ih =>
+        intro slot hs
+        obtain ⟨h1, h2⟩ := slotStep_ok f slot q hs
+        simp only [SM.run, List.map_cons]
+        rw [h2, ih _ h1]
+    exact key qs none (by intro k v e; simp at e)
+  · decide
+
 /-! ## non-vacuity: the hypotheses of the theorems above are satisfiable and the conclusions are
 about runs that really happen (closed terms evaluated by the kernel) -/
 
